@@ -142,7 +142,150 @@ func c13Pairs(run *ev.Run, thorough bool) (evals int64, distinct int64, collisio
 	return
 }
 
-func c13Alphabet(cfg drv.TableCfg, keys []val.Item) func(m *model.Model) []drv.Op {
+// c13Bulk: every key over a generated component alphabet (all strings of length 1..L over
+// characters that a key encoding may treat specially: separators, escape characters, format
+// verbs) is written into ONE table with its own number, then every key is read back, the table is
+// scanned and counted, every second key is deleted and everything is read again. A collision
+// between any two of the N keys shows in O(N) calls (the pair histories above need N*N).
+func c13Bulk(run *ev.Run, thorough bool) (keysTotal int64, ops int64, diverging int64) {
+	chars := []string{"a", ".", "\\", "%", "|", "/", ":", "#"}
+	gen := func(maxLen int) []string {
+		var out, last []string
+		last = []string{""}
+		for l := 1; l <= maxLen; l++ {
+			var next []string
+			for _, p := range last {
+				for _, c := range chars {
+					next = append(next, p+c)
+				}
+			}
+			out = append(out, next...)
+			last = next
+		}
+		return out
+	}
+	l2, l3 := gen(2), gen(3)
+	type bulk struct {
+		name string
+		cfg  drv.TableCfg
+		keys []val.Item
+	}
+	var hr, h []val.Item
+	for _, a := range l2 {
+		for _, b := range l2 {
+			hr = append(hr, hrKey(a, b))
+		}
+	}
+	hs := l3
+	if thorough {
+		hs = gen(4)
+	}
+	for _, a := range hs {
+		h = append(h, hKey(a))
+	}
+	systems := []bulk{
+		{"HR(S,S)", drv.TableCfg{Hash: "h", HashT: "S", Range: "r", RangeT: "S", Billing: "PAY_PER_REQUEST"}, hr},
+		{"H(S)", drv.TableCfg{Hash: "h", HashT: "S", Billing: "PAY_PER_REQUEST"}, h},
+	}
+	if thorough {
+		// hash of up to three characters with a range of one or two
+		var hr3 []val.Item
+		for _, a := range l3 {
+			for _, b := range l2 {
+				hr3 = append(hr3, hrKey(a, b))
+			}
+		}
+		systems = append(systems, bulk{"HR(S,S) long hash", systems[0].cfg, hr3})
+	}
+	for _, d := range Drivers {
+		for _, sy := range systems {
+			impl := d.New()
+			impl.Do(drv.Op{K: drv.KCreate, Table: "tab", Cfg: &sy.cfg})
+			keysTotal += int64(len(sy.keys))
+			// the defect model of the recorded finding (one map keyed by the dot-joined text): what
+			// it predicts is used only to attribute a divergence, never as the expected answer
+			dm := map[string]int{}
+			report := func(phase string, i int, explained bool, detail string, op drv.Op, got string) {
+				diverging++
+				run.Report(fmt.Sprintf("C13|bulk %s|%s|explained-by-dot-join=%v@%s", sy.name, phase, explained, d.Name),
+					fmt.Sprintf("key %s: %s", sy.keys[i].CanonText(), detail),
+					mc.Replay{Driver: d.Name, System: "C13/bulk/" + sy.name, Op: op, Got: got, Want: "the item written under that key (v = " + fmt.Sprint(i) + ")"})
+			}
+			for i, k := range sy.keys {
+				ev.Breadcrumb("bulk put " + sy.name + " " + k.CanonText())
+				op := drv.Op{K: drv.KPut, Table: "tab", Item: with(k, "v", val.N(fmt.Sprint(i)))}
+				if r := impl.Do(op); r.Err != "" {
+					report("put-rejected", i, false, "PutItem of a valid key failed: "+r.Err, op, r.Short())
+				}
+				dm[dotJoin(k, sy.cfg)] = i
+				ops++
+			}
+			readAll := func(phase string, deleted func(i int) bool) {
+				n := 0
+				for i, k := range sy.keys {
+					op := drv.Op{K: drv.KGet, Table: "tab", Key: k}
+					r := impl.Do(op)
+					ops++
+					want := !deleted(i)
+					if want {
+						n++
+					}
+					got := -1 // index of the item returned, -1 = nothing
+					if len(r.Item) != 0 {
+						got = -2 // something that carries no number
+						if v, ok := r.Item["v"]; ok {
+							fmt.Sscan(v.S, &got)
+						}
+					}
+					pred, ok := dm[dotJoin(k, sy.cfg)]
+					if !ok {
+						pred = -1
+					}
+					explained := got == pred && (got < 0 || val.Equal(val.V{T: "M", M: without(r.Item, "v")}, val.V{T: "M", M: sy.keys[got]}))
+					switch {
+					case r.Err != "":
+						report(phase+"|get-error", i, false, "GetItem failed: "+r.Err, op, r.Short())
+					case want && got == -1:
+						report(phase+"|get-missing", i, explained, "GetItem finds nothing under a key that was written and not deleted", op, r.Short())
+					case !want && got != -1:
+						report(phase+"|get-deleted-key-still-answers", i, explained, "GetItem returns an item under a deleted key", op, r.Short())
+					case want:
+						if got != i || !val.Equal(val.V{T: "M", M: without(r.Item, "v")}, val.V{T: "M", M: k}) {
+							report(phase+"|get-other-item", i, explained, "GetItem returns an item that was written under another key", op, r.Short())
+						}
+					}
+				}
+				sc := impl.Do(drv.Op{K: drv.KScan, Table: "tab"})
+				ds := impl.Do(drv.Op{K: drv.KDescribe, Table: "tab"})
+				ops += 2
+				seen := map[string]bool{}
+				for _, it := range sc.Items {
+					seen[without(it, "v").Canon()] = true
+				}
+				cnt := int64(-1)
+				if ds.Desc != nil {
+					cnt = ds.Desc.Count
+				}
+				if len(sc.Items) != n || len(seen) != n || cnt != int64(n) {
+					explained := len(sc.Items) == len(dm) && len(seen) == len(dm) && cnt == int64(len(dm))
+					report(phase+"|scan-or-count", 0, explained, fmt.Sprintf("%d keys are stored; Scan returns %d items (%d distinct keys), DescribeTable counts %d", n, len(sc.Items), len(seen), cnt), drv.Op{K: drv.KScan, Table: "tab"}, fmt.Sprintf("items=%d", len(sc.Items)))
+				}
+			}
+			readAll("after-puts", func(int) bool { return false })
+			for i, k := range sy.keys {
+				if i%2 == 0 {
+					impl.Do(drv.Op{K: drv.KDel, Table: "tab", Key: k})
+					delete(dm, dotJoin(k, sy.cfg))
+					ops++
+				}
+			}
+			readAll("after-deleting-every-second-key", func(i int) bool { return i%2 == 0 })
+		}
+	}
+	return
+}
+
+func c13Alphabet(cfg drv.TableCfg, keys []val.Item, batchGet bool) func(m *model.Model) []drv.Op {
 	hr := cfg.Range != ""
 	return func(m *model.Model) []drv.Op {
 		var ops []drv.Op
@@ -192,6 +335,12 @@ func c13Alphabet(cfg drv.TableCfg, keys []val.Item) func(m *model.Model) []drv.O
 			add("Put("+ml.name+")", drv.Op{K: drv.KPut, Item: with(ml.key, "a", val.S("bad"))})
 			add("Upd("+ml.name+")", drv.Op{K: drv.KUpd, Key: ml.key, Upd: rx.U(rx.Set("a", rx.RV(":z"))), Values: z})
 			add("Del("+ml.name+")", drv.Op{K: drv.KDel, Key: ml.key})
+			// the same malformed keys inside batch calls, next to a well-formed request
+			add("BatchWrite(put "+ml.name+")", drv.Op{K: drv.KBatchWrite, Batch: []drv.BWReq{{Table: "tab", Put: with(keys[1], "a", val.S("ok"))}, {Table: "tab", Put: with(ml.key, "a", val.S("bad"))}}})
+			add("BatchWrite(delete "+ml.name+")", drv.Op{K: drv.KBatchWrite, Batch: []drv.BWReq{{Table: "tab", Del: ml.key.Clone()}, {Table: "tab", Put: with(keys[1], "a", val.S("ok"))}}})
+			if batchGet {
+				add("BatchGet("+ml.name+")", drv.Op{K: drv.KBatchGet, BGKeys: map[string][]val.Item{"tab": {keys[0].Clone(), ml.key.Clone()}}})
+			}
 		}
 		return ops
 	}
@@ -208,6 +357,7 @@ func C13(run *ev.Run, tier string) map[string]interface{} {
 	thorough := tier == "thorough"
 	dl := deadline(tier)
 	evals, distinct, coll, samples := c13Pairs(run, thorough)
+	bulkKeys, bulkOps, bulkDiv := c13Bulk(run, thorough)
 	type sys struct {
 		name string
 		cfg  drv.TableCfg
@@ -231,7 +381,7 @@ func C13(run *ev.Run, tier string) map[string]interface{} {
 				Name:      "C13/" + sy.name,
 				NewImpl:   newImpl,
 				Init:      []drv.Op{{K: drv.KCreate, Table: "tab", Cfg: &sy.cfg}},
-				Alphabet:  c13Alphabet(sy.cfg, sy.keys),
+				Alphabet:  c13Alphabet(sy.cfg, sy.keys, dn == "v2"), // the v1 client has no BatchGetItem (C19's recorded finding)
 				Observe:   func(m *model.Model) []drv.Op { return ObserveOps(m, u) },
 				SigOf:     mc.DefaultSig("C13"),
 				MaxStates: 100000,
@@ -245,7 +395,11 @@ func C13(run *ev.Run, tier string) map[string]interface{} {
 	cov["key_pairs_checked"] = evals
 	cov["distinct_key_pairs"] = distinct / int64(len(Drivers))
 	cov["key_pairs_diverging"] = coll
-	cov["evaluations"] = evals + total.Transitions
+	cov["bulk_keys"] = bulkKeys
+	cov["bulk_calls"] = bulkOps
+	cov["bulk_divergences"] = bulkDiv
+	cov["bulk_rule"] = "part 1b: every key whose components are all strings of length 1..2 (hash-only: 1..3; thorough 1..4 and hash 1..3 x range 1..2) over the characters a . \\ % | / : # is written into one table with its own number; every key is read back, the table scanned and counted; every second key deleted; everything read again"
+	cov["evaluations"] = evals + total.Transitions + bulkOps
 	cov["distinct_nontrivial"] = distinct/int64(len(Drivers)) + total.States
 	cov["rule"] = "part 1: every ordered pair of distinct keys over the component alphabets (strings containing the internal separator '.', numbers, binaries) on HR(S,S), HR(S,N), HR(B,S), H(S): put both, get both, scan, describe, delete one, get the other, scan - compared step by step with the reference model; part 2 (E1): all histories over writes, key-changing updates (SET/REMOVE/ADD/DELETE on key attributes) and every request kind with every key malformation"
 	cov["samples"] = append(cov["samples"].([]interface{}), samples...)
